@@ -31,7 +31,7 @@ EXPLANATION = (
     'finds its file, external destinations end up with the right content, no two different contents ever meet at '
     'one local or remote path, each consumer lists its producer in parent_ids, and the submitted script contains '
     'each command byte-identical except that every reference became ${BATCH_TMPDIR}<shlex.quote(path)>. '
-    'Bounded: quick N=3 (1 read/job, all variants) and a small N=4 space (file/group outputs, externals on, base '
+    'Bounded: quick N=3 (1 read/job, all variants, external output free on the last two jobs) and a small N=4 space (file/group outputs, externals on, base '
     'variant); thorough N=3 with every output kind and read kind (external output free on the last two jobs), N=3 with '
     'externals free on every job, N=3 with a second read (fan-in) on the last job, N=4 with file/group outputs and '
     'all variants; variants and defect kinds are explored on a reduced space (other outputs '
@@ -73,7 +73,7 @@ def _configs(tier):
     longnames = [0, 12, 13, 14, 15, 16, 17, 18, 19]
     if tier == 'quick':
         return [dict(common, tag='N3', N=3, variants=allv, out_kinds=[1, 2, 3, 4, 5, 6], in_reads1=['inA', 'ig'],
-                     nfix=['o_0', 'o_1']),
+                     x_free_jobs=[1, 2], nfix=['o_0', 'o_1']),
                 dict(common, tag='N4', N=4, variants=[0], out_kinds=[1, 3], in_reads1=['inA'], fix_x_all=True,
                      nfix=['o_0', 'o_1']),
                 dict(common, tag='N3fanin', N=3, variants=[0, 16, 18], out_kinds=[1, 3], in_reads1=['inA'],
